@@ -183,6 +183,9 @@ def decode_single_literal(text, backslash=None, nprefix=False):
     return r[0]
 
 
+_DIGITS = "0123456789"
+
+
 def tokens(text, backslash=None, nprefix=False):
     """Coarse SQL token list [(kind, value)]: kind in str / num / word / punct.  None if a literal does not end.
     Used to state 'the rendered literal is one token' and to recognise `FUNC('lit', 'fmt')` shapes."""
@@ -201,16 +204,16 @@ def tokens(text, backslash=None, nprefix=False):
             out.append(("str", r[0]))
             i = r[1]
             continue
-        if c.isdigit() or (c == "." and i + 1 < n and text[i + 1].isdigit()):
+        if c in _DIGITS or (c == "." and i + 1 < n and text[i + 1] in _DIGITS):
             j = i
-            while j < n and (text[j].isdigit() or text[j] == "."):
+            while j < n and (text[j] in _DIGITS or text[j] == "."):
                 j += 1
             if j < n and text[j] in "eE":
                 k = j + 1
                 if k < n and text[k] in "+-":
                     k += 1
-                if k < n and text[k].isdigit():
-                    while k < n and text[k].isdigit():
+                if k < n and text[k] in _DIGITS:
+                    while k < n and text[k] in _DIGITS:
                         k += 1
                     j = k
             out.append(("num", text[i:j]))
@@ -262,9 +265,11 @@ class Findings:
     """collects contract failures, splits them into known findings and new violations, writes a bounded number of
     replay files (every failure is counted; exit code 1 as soon as one is new)"""
 
-    def __init__(self, run, max_replays=6):
+    def __init__(self, run, max_replays=8, per_clause=3):
         self.run = run
         self.max_replays = max_replays
+        self.per_clause = per_clause
+        self.written = {}  # clause -> replay files written
         self.new = 0
         self.known = {}  # what -> [count, first input]
 
@@ -278,9 +283,10 @@ class Findings:
             rec[0] += 1
             return
         self.new += 1
-        if self.new <= self.max_replays:
-            name = "%s-%s-%d" % (fail.get("clause", "case"), fail["function"], self.new)
-            self.run.violation(name, fail)
+        clause = fail.get("clause", "case")
+        if sum(self.written.values()) < self.max_replays and self.written.get(clause, 0) < self.per_clause:
+            self.written[clause] = self.written.get(clause, 0) + 1
+            self.run.violation("%s-%s-%d" % (clause, fail["function"], self.new), fail)
 
     def extend(self, fails):
         for f in fails:
@@ -289,7 +295,7 @@ class Findings:
     def finish(self):
         for what, (n, first, k) in self.known.items():
             self.run.known_finding(k, "%d input(s) in this scope, e.g. %s" % (n, first))
-        if self.new > self.max_replays:
-            self.run.coverage["violations_beyond_replay_cap"] = self.new - self.max_replays
+        if self.new > sum(self.written.values()):
+            self.run.coverage["violations_beyond_replay_cap"] = self.new - sum(self.written.values())
         self.run.coverage["contract_failures_new"] = self.new
         self.run.coverage["contract_failures_known"] = sum(v[0] for v in self.known.values())
